@@ -473,7 +473,59 @@ func levelKinds(t *c05type) string {
 	return out
 }
 
+var c05NestedUnion *meta.Module
+
+// nestedUnion: a union inside a union, none of whose members holds numbers as wide as the outer union's other member: a value
+// is one of the inner member's range (when it fits that member) or of the outer member's range
+func (p c05) nestedUnion(c *core.Ctx) {
+	if c05NestedUnion == nil {
+		m, err := parser.LoadModuleFromString(nil, `module nu { namespace "urn:nu"; prefix nu; revision 2020-01-01;
+  leaf nested { type union { type union { type int8 { range "1..10"; } type boolean; } type int32 { range "100..200"; } } }
+  leaf-list nl { type union { type union { type uint8 { range "1..10"; } } type int32 { range "100..200 | 1000"; } } } }`)
+		if err != nil {
+			c.Violate("harness/nested-union-module", "%v", err)
+			return
+		}
+		c05NestedUnion = m
+	}
+	for _, v := range []int64{0, 1, 5, 10, 11, 50, 99, 100, 150, 200, 201, 300, 1000, 1001, -1, -129, 127, 128, 255, 256, 100000} {
+		for _, leaf := range []string{"nested", "nl"} {
+			want := (v >= 1 && v <= 10) || (v >= 100 && v <= 200) || (leaf == "nl" && v == 1000)
+			doc := fmt.Sprintf(`{"nested":%d}`, v)
+			if leaf == "nl" {
+				doc = fmt.Sprintf(`{"nl":[5,%d]}`, v)
+			}
+			c.Eval()
+			c.Shape("nested-union/%s/%v", leaf, want)
+			data := map[string]interface{}{}
+			var err error
+			if c.Guard("nested union", func() {
+				n, e := nodeutil.ReadJSON(doc)
+				if e != nil {
+					err = e
+					return
+				}
+				err = node.NewBrowser(c05NestedUnion, nodeutil.ReflectChild(data)).Root().UpsertFrom(n)
+			}) {
+				continue
+			}
+			if (err == nil) != want {
+				cls := "accepted-outside"
+				if want {
+					cls = "rejected-inside"
+				}
+				c.Violate(cls+"/nested-union/"+leaf, "%s: accepted=%v (%v), want %v: inner union int8/uint8 1..10, outer member int32 100..200 (nl: also 1000)\nstored: %v", doc, err == nil, err, want, data)
+			} else if err != nil && len(data) > 0 {
+				c.Violate("stored-outside/nested-union/"+leaf, "%s was refused (%v) and yet something is stored: %v", doc, err, data)
+			}
+		}
+	}
+}
+
 func (p c05) Run(c *core.Ctx, idx int) {
+	if idx%40 == 7 {
+		p.nestedUnion(c)
+	}
 	t := genC05Type(c, idx)
 	tds, leafType := t.yang()
 	kw := "leaf"
